@@ -18,15 +18,15 @@ PROPERTY = "C03"
 FUNCTIONS = ["DefaultResolver.resolve/process_arguments/process_options/process_default_sub_commands/process_default_commands/get_arguments_to_test/get_options_to_test/create_resolved_command",
              "ResolveResult", "ConsoleApplication.resolve_command/add_command", "Command.add_sub_command/named_sub_commands/default_sub_commands", "CommandCollection.get/__contains__", "CommandConfig.default/anonymous/hide/disable"]
 PART = {}
-BOUNDS = {"quick": "one command tree of depth 3 / fan-out <= 3 with aliases; 3 tokens (14 x 14 x 9 menu literals: names, aliases, unknown names, short/long options, '--'); top-level command named/default/anonymous; 4 symbolic attribute bits (two default sub-commands, default sub-sub-command, disabled sub-command); hidden and disabled top-level commands present",
+BOUNDS = {"quick": "one command tree of depth 3 / fan-out <= 4 with aliases (incl. hyphenated names and an anonymous sub-command); 3 tokens (18 x 18 x 11 menu literals: names, aliases, unknown names, short/long options, '--'); top-level command named/default/anonymous; 4 symbolic attribute bits (two default sub-commands, default sub-sub-command, disabled sub-command); hidden and disabled top-level commands present",
           "thorough": "third token from the full 14-literal menu, hidden/disabled/command-string variants, 4-token lines below s/sv"}
 OUTSIDE = ["names longer than 2 characters, fan-out > 3, depth > 3", "which default wins when several default commands exist and only some parse (all commands are lenient here, so the first default is expected)",
            "empty-string tokens (the resolver treats '' like the end of the leading tokens)", "command lines longer than 4 tokens"]
 STUBS = ["every command uses lenient argument parsing so that selection is observed independently of C01/C02 parse failures"]
 ASSUMPTIONS = ["'continuing into that command's default sub-command' is one level deep (the statement says 'that command's default sub-command')"]
 
-MENU = ["s", "sv", "a", "ad", "l", "x", "xx", "r", "h", "d", "zz", "-v", "--", "--a"]
-MENU3 = ["a", "ad", "x", "xx", "zz", "-v", "--", "--a", "l"]        # quick: third token
+MENU = ["s", "sv", "a", "ad", "l", "x", "xx", "r", "h", "d", "zz", "-v", "--", "--a", "t-u", "a-d", "n", "z-z"]
+MENU3 = ["a", "ad", "x", "xx", "zz", "-v", "--", "--a", "l", "a-d", "n"]        # quick: third token
 
 
 class Node:
@@ -38,10 +38,12 @@ def make_tree(bits):
     l_default, r_default, r_anon, x_default, a_disabled, h_hidden, m_default, d_disabled = bits
     return [
         Node("s", ["sv"], subs=[
-            Node("a", ["ad"], disabled=a_disabled, subs=[Node("x", ["xx"], default=x_default), Node("y")]),
+            Node("a", ["ad", "a-d"], disabled=a_disabled, subs=[Node("x", ["xx"], default=x_default), Node("y")]),
             Node("l", default=l_default),
             Node("m", default=m_default),
+            Node("n", default=True, anonymous=True, subs=[Node("a")]),      # an anonymous sub-command: cannot be named
         ]),
+        Node("t-u"),                                                        # a hyphenated command name
         Node("r", default=r_default or r_anon, anonymous=r_anon),
         Node("h", hidden=h_hidden, subs=[Node("a")]),
         Node("d", disabled=d_disabled),
@@ -111,15 +113,18 @@ def _case(bits, tokens, as_string):
     return got == exp
 
 
-def resolve3(k2: int, k3: int, l_default: bool, x_default: bool, a_disabled: bool, m_default: bool) -> bool:
+def resolve3(k2: int, k3: int, r_mode: int, l_default: bool, x_default: bool, a_disabled: bool, m_default: bool) -> bool:
     """
-    pre: 0 <= k2 < len(MENU) and 0 <= k3 < len(PART["menu3"])
+    pre: 0 <= k2 < len(PART["menu2"]) and 0 <= k3 < len(PART["menu3"])
+    pre: 0 <= r_mode <= 2
+    pre: PART["r_mode"] is None or r_mode == PART["r_mode"]
+    pre: PART.get("l_default") is None or l_default == PART["l_default"]
     post: _
     """
-    r_mode = PART["r_mode"]
+    r_mode = conc_int(r_mode, 0, 2)
     bits = (conc_bool(l_default), r_mode == 1, r_mode == 2, conc_bool(x_default), conc_bool(a_disabled), PART["h_hidden"], conc_bool(m_default), PART["d_disabled"])
-    m3 = PART["menu3"]
-    tokens = [MENU[PART["k1"]], MENU[conc_int(k2, 0, len(MENU) - 1)], m3[conc_int(k3, 0, len(m3) - 1)]]
+    m2, m3 = PART["menu2"], PART["menu3"]
+    tokens = [MENU[PART["k1"]], m2[conc_int(k2, 0, len(m2) - 1)], m3[conc_int(k3, 0, len(m3) - 1)]]
     return untraced(_case, bits, tokens, PART["as_string"])
 
 
@@ -147,10 +152,10 @@ def resolve0(l_default: bool, r_mode: int, m_default: bool, d_disabled: bool, k:
     return untraced(_case, bits, tokens, False)
 
 
-def resolve_twin(k2: int, k3: int, l_default: bool, x_default: bool, a_disabled: bool, m_default: bool) -> bool:
+def resolve_twin(k2: int, k3: int, r_mode: int, l_default: bool, x_default: bool, a_disabled: bool, m_default: bool) -> bool:
     """
     pre: 0 <= k2 < len(MENU) and 0 <= k3 < len(MENU)
-    pre: not a_disabled
+    pre: not a_disabled and r_mode == 0
     post: _
     """
     # reachability twin: some line reaches depth 3 through an alias and then a default sub-sub-command
@@ -164,14 +169,21 @@ def conditions(tier):
     quick = tier == "quick"
     t = 120 if quick else 1500
     conds = [{"name": "resolve0", "fn": resolve0, "timeout": t, "bounds": "no leading tokens / only options / only a '--' tail; default-command bits symbolic"}]
+    MENU4 = ["a", "zz", "-v", "--"]
     for k1 in range(len(MENU)):
-        for r_mode in (0, 1, 2):
-            variants = [(True, True, False)] if quick else [(True, True, False), (False, False, False), (True, False, True)]
-            for hh, dd, as_string in variants:
-                conds.append({"name": "resolve3[%r,r%d%s]" % (MENU[k1], r_mode, "" if quick else ",h%d,d%d,s%d" % (hh, dd, as_string)), "fn": resolve3, "timeout": t,
-                              "part": {"k1": k1, "r_mode": r_mode, "menu3": MENU3 if quick else MENU, "h_hidden": hh, "d_disabled": dd, "as_string": as_string},
-                              "bounds": "first token %r, second from %r, third from %r; top-level 'r' %s; 4 symbolic attribute bits (default sub-commands l/m, default sub-sub-command x, disabled sub-command a); hidden h=%s, disabled d=%s; %s form" % (
-                                  MENU[k1], MENU, MENU3 if quick else MENU, ["named", "default", "anonymous"][r_mode], hh, dd, "command-string" if as_string else "argv")})
+        deep = MENU[k1] in ("s", "sv")                    # the tokens that open the deep part of the tree get the large menus
+        variants = [(True, True, False)] if quick else [(True, True, False), (False, False, False), (True, False, True)]
+        for hh, dd, as_string in variants:
+            if deep:
+                plan = [(rm, ld, MENU, MENU3 if quick else MENU) for rm in (0, 1, 2) for ld in (False, True)]
+            else:
+                plan = [(None, None, MENU3 if quick else MENU, MENU4 if quick else MENU3)]
+            for rm, ld, m2, m3 in plan:
+                conds.append({"name": "resolve3[%r%s%s%s]" % (MENU[k1], "" if rm is None else ",r%d" % rm, "" if ld is None else ",l%d" % ld, "" if quick else ",h%d,d%d,s%d" % (hh, dd, as_string)),
+                              "fn": resolve3, "timeout": t,
+                              "part": {"k1": k1, "r_mode": rm, "l_default": ld, "menu2": m2, "menu3": m3, "h_hidden": hh, "d_disabled": dd, "as_string": as_string},
+                              "bounds": "first token %r, second from %r, third from %r; top-level 'r' %s; symbolic attribute bits (default sub-commands l/m, default sub-sub-command x, disabled sub-command a); hidden h=%s, disabled d=%s; %s form" % (
+                                  MENU[k1], m2, m3, "named/default/anonymous (symbolic)" if rm is None else ["named", "default", "anonymous"][rm], hh, dd, "command-string" if as_string else "argv")})
     if not quick:
         for k1 in (0, 1):                 # 's', 'sv'
             for k2 in (2, 3, 4, 5):      # 'a', 'ad', 'l', 'x'  (paths that reach depth 2-3)
